@@ -143,3 +143,32 @@ contract(
     options={"callee_contracts": {"RefsAbs16.allkeys": ("<abstract>", "RefsAbs16.allkeys@abs"), "RefsAbs16.read_ref": ("<abstract>", "RefsAbs16.read_ref@abs"),
                                   "parse_symref_value": ("<abstract>", "parse_symref_value@abs"), "Ref": ("<abstract>", "Ref@id")}},
 )
+
+
+# ---- NamespacedRefsContainer: the name translation of the view (every operation of the view goes through these two) ----
+from pyvc.contract import class_spec  # noqa: E402
+F = "dulwich/refs.py"
+class_spec(file=F, cls="NamespacedRefsContainer", fields={"_namespace_prefix": "bytes"})
+_NS_SPECIAL = "(name == b'HEAD' or not (len(name) >= 5 and name[:5] == b'refs/'))"
+contract(
+    prop=["C16"], file=F, func="NamespacedRefsContainer._apply_namespace",
+    params={"self": "obj:NamespacedRefsContainer", "name": "bytes"}, returns="bytes", raises_any=False,
+    ensures=[f"not {_NS_SPECIAL} or result == name",
+             f"{_NS_SPECIAL} or result == self._namespace_prefix + name"],
+)
+contract(
+    prop=["C16"], file=F, func="NamespacedRefsContainer._strip_namespace",
+    params={"self": "obj:NamespacedRefsContainer", "name": "bytes"}, returns="bytes?", raises_any=False,
+    ensures=[f"not {_NS_SPECIAL} or result == name",
+             f"{_NS_SPECIAL} or result is None or (len(name) >= len(self._namespace_prefix) and name[:len(self._namespace_prefix)] == self._namespace_prefix and result == name[len(self._namespace_prefix):])",
+             f"{_NS_SPECIAL} or result is not None or not (len(name) >= len(self._namespace_prefix) and name[:len(self._namespace_prefix)] == self._namespace_prefix)"],
+)
+lemma(
+    prop=["C16"], name="namespace_strip_undoes_apply", file=F,
+    forall={"c": "obj:NamespacedRefsContainer", "name": "bytes"},
+    assume=["len(c._namespace_prefix) >= 16 and c._namespace_prefix[:16] == b'refs/namespaces/'"],
+    steps=[("full", (F, "NamespacedRefsContainer._apply_namespace"), ["c", "name"]),
+           ("back", (F, "NamespacedRefsContainer._strip_namespace"), ["c", "full"])],
+    show=["back is not None", "back == name"],
+    note="a name written through the view is found again under the same name: stripping undoes prefixing for every name and every namespace",
+)
